@@ -117,6 +117,7 @@ class Model:
         self.gone = []      # instances replaced or removed
         self.clock = 0
         self.enabled = True     # world.dispatch_enabled
+        self.stale = set()      # ids of registered instances that another world took over meanwhile (two worlds)
         self.pending = []       # one list of (event, instance) per operation performed while disabled
         self.explicit = set()   # ids of instances added with an explicit priority
 
@@ -157,9 +158,10 @@ def observe(sp, w, m, types, when):
     check_order(sp, m, got, when, 'processors')
     for p in reg:
         want = m.prio[id(p)]
-        sp.check(p.priority == want, 'priority-readback',
-                 '%s: %r.priority reads %s, requested/default priority is %s' % (when, p, p.priority, want))
-        sp.check(p.world is w, 'knows-world', '%s: %r.world is %r' % (when, p, p.world))
+        if id(p) not in m.stale:
+            sp.check(p.priority == want, 'priority-readback',
+                     '%s: %r.priority reads %s, requested/default priority is %s' % (when, p, p.priority, want))
+            sp.check(p.world is w, 'knows-world', '%s: %r.world is %r' % (when, p, p.world))
         sp.check(w.get_processor(type(p)) is p, 'get_processor',
                  '%s: get_processor(%s) is not the registered instance' % (when, type(p).__name__))
     for T in types:
@@ -451,6 +453,96 @@ def h_procs(sp, L=3, n_types=4, mid_process=True, build=0, readd=True, pick=None
     sp.done()
 
 
+def h_two_worlds(sp, L=3, build=False):
+    """Two worlds; a processor instance removed from one may be added to the other (moved), or be registered in
+    both at once (shared).  Per-world oracle as in h_procs."""
+    types = [P0, P2]
+    worlds = [World(), World()]
+    models = [Model(), Model()]
+    names = 'AB'
+    log = Log()
+    pool = []
+    if build:
+        # world A starts with one P2 (class default priority 5), so its list has a neighbour to bisect against
+        q = P2(log, 'P2#1')
+        pool.append(q)
+        sp.note('A.add_processor(%r)' % (q,))
+        worlds[0].add_processor(q)
+        models[0].add(q, DEFAULT[P2], False)
+        del log[:]
+    for step in range(L):
+        when = 'step %d' % step
+        k = sp.choose(2, 'world%d' % step)
+        w, m, o = worlds[k], models[k], models[1 - k]
+        op = sp.choose(3, 'op%d' % step)
+        try:
+            if op in (0, 2):
+                if m.stale:
+                    sp.assume(False)    # this world's list holds an instance whose priority another world rewrote
+                if op == 0:
+                    T = sp.pick(types, 'type%d' % step)
+                    p = T(log, '%s#%d' % (T.__name__, len(pool) + 1))
+                    pool.append(p)
+                else:
+                    if not pool:
+                        sp.assume(False)
+                    p = sp.pick(pool, 'instance%d' % step)
+                    T = type(p)
+                    if m.reg.get(T) is p:
+                        sp.assume(False)        # re-adding to the same world: harness procs
+                    if o.reg.get(T) is p:
+                        sp.cover('processor-in-two-worlds')
+                        o.stale.add(id(p))
+                    elif any(q is p for q in o.gone):
+                        sp.cover('processor-moved-between-worlds')
+                old = m.reg.get(T)
+                expected = [('on_add', p)]
+                if old is not None:
+                    m.drop(T)
+                    m.stale.discard(id(old))
+                    expected.append(('on_remove', old))
+                explicit = bool(sp.flag('explicit%d' % step))
+                if explicit:
+                    prio = sp.int('prio%d' % step)
+                    sp.note('%s.add_processor(%r, priority=%s)' % (names[k], p, prio))
+                    w.add_processor(p, priority=prio)
+                else:
+                    sp.note('%s.add_processor(%r)' % (names[k], p))
+                    w.add_processor(p)
+                    prio = DEFAULT[T] if op == 0 else p.priority
+                m.add(p, prio, explicit)
+                for x in log:
+                    if x[0] == 'on_add':
+                        sp.check(x[2] is w, 'callback-world', '%s: on_add of %r ran with world %r' % (when, x[1], x[2]))
+                expect_events(sp, log, expected, when)
+            else:
+                T = sp.pick(types, 'type%d' % step)
+                sp.note('%s.remove_processor(%s)' % (names[k], T.__name__))
+                w.remove_processor(T)
+                expected = []
+                if T in m.reg:
+                    old = m.drop(T)
+                    if id(old) in m.stale:
+                        sp.cover('removed-where-stale')
+                    m.stale.discard(id(old))
+                    expected.append(('on_remove', old))
+                expect_events(sp, log, expected, when)
+        except Exception as ex:     # noqa
+            sp.fail('op-raises', '%s: operation raised %r' % (when, ex))
+        for j in (0, 1):
+            try:
+                observe(sp, worlds[j], models[j], types, '%s, world %s' % (when, names[j]))
+            except Exception as ex:     # noqa
+                sp.fail('op-raises', '%s: an observer of world %s raised %r' % (when, names[j], ex))
+    for j in (0, 1):
+        try:
+            run_process(sp, worlds[j], models[j], log, 'final frame of world %s' % names[j])
+        except Exception as ex:     # noqa
+            sp.fail('op-raises', 'final process(dt) of world %s raised %r' % (names[j], ex))
+    sp.done()
+
+
+_TWO = ['processor-moved-between-worlds', 'processor-in-two-worlds', 'removed-where-stale']
 _TAGS = ['replace', 'callback-read-during-replacement', 'remove', 'remove-subtype', 'explicit', 'default', 'explicit-vs-explicit', 'tie-of-defaults',
          'three-or-more', 'process-several', 'frame-after-replace-or-remove']
 _DISABLED = ['start-disabled', 'disable-mid-history', 'add-while-disabled', 'replace-while-disabled',
@@ -466,6 +558,7 @@ HARNESSES = {
     'disabled': dict(fn=h_procs, nontrivial=_DISABLED, required=_DISABLED),
     # one lifecycle callback raises once; consistency of the world's own views, then the usual oracle again
     'fault': dict(fn=h_procs, nontrivial=_FAULT, required=_FAULT),
+    'two-worlds': dict(fn=h_two_worlds, nontrivial=_TWO, required=_TWO),
     'noreadd': dict(fn=h_procs, nontrivial=_TAGS, required=_TAGS),
     # same function started from a built world (first `build` steps are forced adds): longer lists
     'built': dict(fn=h_procs, nontrivial=_TAGS + _READD + ['four'],
@@ -478,6 +571,7 @@ TIERS = {
         ('built', dict(L=1, n_types=4, build=3)),
         ('disabled', dict(L=4, pick=[0, 4, 5], toggle=True, readd=False, explicit_ok=False)),
         ('fault', dict(L=3, pick=[0, 1, 4, 5], readd=False, explicit_ok=False, fault=True)),
+        ('two-worlds', dict(L=3, build=True)),
     ],
     'thorough': [
         ('procs', dict(L=4, n_types=4)),
@@ -486,6 +580,8 @@ TIERS = {
         ('disabled', dict(L=3, pick=[0, 1, 4, 5], toggle=True, readd=False)),
         ('fault', dict(L=4, pick=[0, 1, 4, 5], readd=False, explicit_ok=False, fault=True)),
         ('fault', dict(L=3, pick=[0, 1, 2], readd=False, fault=True)),
+        ('two-worlds', dict(L=4)),
+        ('two-worlds', dict(L=4, build=True)),
         ('noreadd', dict(L=5, n_types=3, mid_process=False, readd=False)),
     ],
 }
@@ -508,12 +604,14 @@ BOUNDS = {
              'dispatching disabled: all sequences of 4 operations (add / remove / process / toggle dispatch_enabled) '
              'over P0, P4 (on_add only), P5 (on_remove only) with default priorities, started enabled or disabled, '
              'enabled again at the end; failing callback: all sequences of 3 operations over P0, P1(P0), P4, P5 with one '
-             'on_add or on_remove raising once in a chosen operation',
+             'on_add or on_remove raising once in a chosen operation; two worlds: 3 operations (add fresh / add an '
+             'existing instance / remove, on world A or B; classes P0, P2) after A was given one P2',
     'thorough': 'all sequences of 4 operations over the 4 classes, 2 operations after the built world, and all '
                 'sequences of 5 add-fresh/remove operations over P0, P1(P0), P2; each followed by a final process(dt); priorities: any integer or omitted; '
                 'dispatching disabled: 5 operations over P0, P4, P5 (default priorities) and 3 operations over P0, '
                 'P1(P0), P4, P5 with symbolic priorities; failing callback: 4 operations over P0, P1(P0), P4, P5 (default '
-                'priorities) and 3 operations over P0, P1(P0), P2 with symbolic priorities',
+                'priorities) and 3 operations over P0, P1(P0), P2 with symbolic priorities; two worlds: 4 operations from '
+                'empty worlds and 4 after A was given one P2',
 }
 ASSUMPTIONS = [
     'add_processor gets a fresh instance, or (re-add operation) the very instance currently registered for its '
@@ -526,6 +624,14 @@ ASSUMPTIONS = [
     'order, or none at all, are both accepted',
     '"order they were added" refers to the add_processor call that registered the instance currently listed',
     'processors do not add/remove processors or raise inside process()',
+    'harness "two-worlds": operations target world A or B; an instance removed from one world may be added to the '
+    'other (moved) or be registered in both at once (shared).  Each world is modelled on its own, with the '
+    'priority the instance had when it was inserted there.  HEAD keeps the explicit priority and the world '
+    'back-reference on the instance, so once the other world has taken an instance over, its .priority/.world '
+    'are not checked for the first world any more (order, membership, get_processor, callbacks and process() '
+    'still are), and further add_processor calls into a world that still lists such an instance are outside '
+    'the claim (its list is no longer sorted by the current priorities; paths cut by assume); removing it there '
+    'is inside',
     'harness "fault": in one symbolically chosen operation the first on_add (or on_remove) callback raises once '
     '(dispatching enabled; the exception is expected to propagate to the caller).  The statement does not say '
     'what such an operation leaves behind, so right after it only agreement of the world with itself is required: '
@@ -551,7 +657,8 @@ ASSUMPTIONS = [
     'on_add/on_remove are checked for handler processors only (P3 has no __events__; P4 maps on_add only, P5 '
     'on_remove only)',
 ]
-OUTSIDE = ['add_processor/remove_processor from inside a running process()', 'histories longer than the bound',
+OUTSIDE = ['add_processor/remove_processor from inside a running process()',
+           'adding to a world that lists an instance whose priority another world has rewritten', 'histories longer than the bound',
            'World.clear() or re-adding the registered instance while dispatching is disabled',
            'priority objects that are not mathematical integers (bool, int subclasses with odd comparisons)',
            'events other than on_add/on_remove queued while dispatching is disabled (C04)']
